@@ -9,7 +9,8 @@ structure St where
   routes : Routes Script := []
   dflt : Option Script := none
   upgrade : Option Script := none
-  suppressHook : Bool := false
+  /-- `onResponseSuppressed`: returns false / true, or throws a std / non-std exception -/
+  suppressHook : Seam Bool := .ret false
   /-- the worker-pool model (`parr` / `prel` / `pdrain` ops) -/
   pool : Pool := {}
   /-- gate of each unfinished task, aligned with `pool.tasks` (`none` = the request reaches no handler) -/
@@ -61,8 +62,10 @@ def mkServer (st : St) : Server :=
     defaultHandler := st.dflt.map runScript,
     upgradeHook := fun req =>
       match st.upgrade with
-      | none => none
-      | some sc => some (runScript sc req {}).res,
+      | none => .ret none
+      | some sc =>
+        let o := runScript sc req {}
+        if o.threw then .threw (!o.nonStd) else .ret (some o.res),
     suppressHook := fun _ _ => st.suppressHook }
 
 def parseSess : String → Option (Option SessionInfo)
@@ -194,9 +197,31 @@ def step (st : St) : List String → St × String
     | some sc => ({ st with upgrade := some sc }, "ok")
     | none => (st, "bad-op")
   | ["hook", "suppress", b] =>
-    match parseBit b with
-    | some b => ({ st with suppressHook := b }, "ok")
+    match b with
+    | "0" => ({ st with suppressHook := .ret false }, "ok")
+    | "1" => ({ st with suppressHook := .ret true }, "ok")
+    | "thr" => ({ st with suppressHook := .threw true }, "ok")
+    | "thx" => ({ st with suppressHook := .threw false }, "ok")
+    | _ => (st, "bad-op")
+  | ["reqw", hx] =>
+    -- the whole predicted wire (end-to-end acceptor): server up, default session
+    match ofHex hx with
+    | some d =>
+      match process (mkServer st) {} d with
+      | .respond w c => (st, s!"respond {bit c} {toHex w}")
+      | o => (st, showOutcome o)
     | none => (st, "bad-op")
+  | ["parr2", sid, hx1, hx2] =>
+    -- two complete requests in one read: the extraction loop dispatches both before the pool settles
+    match sid.toNat?, ofHex hx1, ofHex hx2 with
+    | some sid, some d1, some d2 =>
+      let P := poolParams st
+      let add (st : St) (d : Bytes) : St :=
+        let before := st.pool.tasks.length
+        let p' := stepPool P st.pool (.arrive sid d)
+        { st with pool := p', gates := if p'.tasks.length > before then st.gates ++ [gateOf st d] else st.gates }
+      poolDelta (settle (add (add st d1) d2))
+    | _, _, _ => (st, "bad-op")
   | ["req", hx, bits, sess] =>
     match ofHex hx, parseSess sess with
     | some d, some si =>
